@@ -145,6 +145,9 @@ type askRunner struct{}
 func (askRunner) Reset() {}
 
 func (askRunner) Step(t []string) string {
+	if len(t) == 3 && t[0] == "askrestart" {
+		return askRestart(t)
+	}
 	if len(t) != 6 || t[0] != "ask" {
 		return "bad-op"
 	}
@@ -334,6 +337,127 @@ func (askRunner) Step(t []string) string {
 	return sb.String()
 }
 
+type askBoom struct{}
+
+// askRestart: `askrestart <pending> <after>` — an actor has <pending> asks outstanding (silent receiver,
+// 1.5 s timeout), fails and is restarted by the guard, and then asks the echo receiver <after> times
+// through the context of its new incarnation. The reply addresses of the old and the new incarnation
+// must not collide: every new ask gets its own reply (own=<after>), none hangs, the outstanding ones
+// time out (ptimeout=<pending>), and every address is released.
+func askRestart(t []string) string {
+	pending, ok1 := proto.Atoi(t[1])
+	after, ok2 := proto.Atoi(t[2])
+	if !ok1 || !ok2 || pending < 0 || pending > 32 || after < 1 || after > 64 {
+		return "bad-op"
+	}
+	logger := log.NewSilentLogger()
+	sys := vivid.NewActorSystem(vivid.FunctionalActorSystemConfigurator(func(config *vivid.ActorSystemConfiguration) {
+		config.WithLoggerProvider(log.FunctionalLoggerProvider(func() *log.Logger { return logger }))
+	}))
+	var req, nilreq, launches atomic.Int64
+	echo := sys.ActorOfF(func() vivid.Actor {
+		return vivid.FunctionalActor(func(ctx vivid.ActorContext) {
+			switch m := ctx.Message().(type) {
+			case *askMsg:
+				req.Add(1)
+				ctx.Reply(&askReply{m.asker, m.seq, 0})
+			case nil:
+				nilreq.Add(1)
+			}
+		})
+	})
+	silent := sys.ActorOfF(func() vivid.Actor { return vivid.FunctionalActor(func(ctx vivid.ActorContext) {}) })
+	asker := sys.ActorOfF(func() vivid.Actor {
+		return vivid.FunctionalActor(func(ctx vivid.ActorContext) {
+			switch m := ctx.Message().(type) {
+			case *vivid.OnLaunch:
+				launches.Add(1)
+			case *goMsg:
+				m.run(ctx)
+			case *askBoom:
+				panic("askrestart: scripted failure")
+			}
+		})
+	})
+	waitLaunched(sys, 2+3)
+	before := len(vivid.VerifRegistryAddresses(sys))
+	tally := &askTally{n: map[string]int{}}
+	pendTimeout := 1500 * time.Millisecond
+	var pend []func() (any, error)
+	started := make(chan struct{})
+	sys.Tell(asker, &goMsg{run: func(ctx vivid.ActorContext) {
+		for i := 0; i < pending; i++ {
+			f := ctx.FutureAsk(silent, &askMsg{0, 1000 + i}, pendTimeout)
+			pend = append(pend, func() (any, error) { return f.Result() })
+		}
+		close(started)
+	}})
+	select {
+	case <-started:
+	case <-time.After(10 * time.Second):
+	}
+	sys.Tell(asker, &askBoom{})
+	deadline := time.Now().Add(15 * time.Second)
+	for launches.Load() < 2 && time.Now().Before(deadline) {
+		time.Sleep(time.Millisecond)
+	}
+	generous := 60 * time.Second
+	doneAll := make(chan struct{})
+	sys.Tell(asker, &goMsg{run: func(ctx vivid.ActorContext) {
+		defer close(doneAll)
+		hung := false
+		for s := 0; s < after; s++ {
+			if hung {
+				tally.add("skipped", false)
+				continue
+			}
+			f := ctx.FutureAsk(echo, &askMsg{0, s}, generous)
+			o, h := await(func() (any, error) { return f.Result() }, 8*time.Second)
+			switch {
+			case h:
+				hung = true
+				tally.add("hang", false)
+			case o.pan:
+				tally.add("panic", false)
+			default:
+				tally.add(classify(0, s, o.v, o.err), false)
+			}
+		}
+	}})
+	select {
+	case <-doneAll:
+	case <-time.After(time.Duration(after)*9*time.Second + 20*time.Second):
+	}
+	ptimeout := 0
+	for _, get := range pend {
+		o, h := await(get, pendTimeout+hangMargin)
+		if !h && !o.pan && errors.Is(o.err, future.ErrorFutureTimeout) {
+			ptimeout++
+		}
+	}
+	delta := 0
+	dl := time.Now().Add(5 * time.Second)
+	for {
+		delta = len(vivid.VerifRegistryAddresses(sys)) - before
+		if delta == 0 || time.Now().After(dl) {
+			break
+		}
+		time.Sleep(5 * time.Millisecond)
+	}
+	var sb strings.Builder
+	for _, c := range askClasses {
+		fmt.Fprintf(&sb, "%s=%d ", c, tally.n[c])
+	}
+	fmt.Fprintf(&sb, "late=0 req=%d nilreq=%d regdelta=%d spawnpanic=0 maxms=0 ptimeout=%d launches=%d", req.Load(), nilreq.Load(), delta, ptimeout, launches.Load())
+	done := make(chan struct{})
+	go func() { defer func() { recover(); close(done) }(); sys.Shutdown(false) }()
+	select {
+	case <-done:
+	case <-time.After(5 * time.Second):
+	}
+	return sb.String()
+}
+
 // waitLaunched waits (bounded) until n processes besides the dead-letter process are registered.
 func waitLaunched(sys *vivid.ActorSystem, n int) {
 	deadline := time.Now().Add(2 * time.Second)
@@ -377,6 +501,10 @@ func askGen(rng *proto.RNG, tier string, shard, nshards int, w *bufio.Writer) {
 		emit(fmt.Sprintf("ask %s 8 %d error %d", e, heavy/2, generous))
 	}
 	emit(fmt.Sprintf("ask ctx 16 %d echo %d", heavy/4, generous))
+	// asks outstanding across a restart of the asking actor, then asks of the new incarnation
+	for _, pa := range [][2]int{{1, 3}, {3, 6}, {0, 2}} {
+		emit(fmt.Sprintf("askrestart %d %d", pa[0], pa[1]))
+	}
 	// (iii) random: small timeouts racing the reply
 	n := 30
 	if tier == "thorough" {
